@@ -1,4 +1,681 @@
-//! stream `der` — not implemented yet
-pub fn handle(_args: &[&str]) -> Option<String> {
-    None
+//! stream `der` (C20): the DER primitives of the real crate — `BasicRead`/`BasicWrite` (blanket impls
+//! over `std::io::{Read, Write}`) on `Vec<u8>` / `&[u8]`, and `BasicWriter`/`BasicReader` through the
+//! public descriptor types `Integer`, `Boolean`, `Enumerated`.
+//!
+//! Round-trip operations answer `ok <written hex> <value read back> <bytes consumed>` or
+//! `ok <written hex> err:<class>`; the reader is given the written bytes followed by `<post>`.
+//! Hostile-read operations (`r…`) answer `ok <value> <bytes consumed>` | `err <class>`.
+use crate::util::*;
+use asn1rs::descriptor::numbers::Number;
+use asn1rs::descriptor::{boolean, common, enumerated, numbers};
+use asn1rs::descriptor::{Boolean, Enumerated, Integer, ReadableType, WritableType};
+use asn1rs::model::asn::Tag;
+use asn1rs::prelude::*;
+use asn1rs::protocol::basic::{BasicRead, BasicWrite, Error};
+use asn1rs::rw::{BasicReader, BasicWriter};
+use std::fmt::Display;
+
+asn_to_rust!(
+    r"DerZoo DEFINITIONS AUTOMATIC TAGS ::=
+    BEGIN
+
+    Small ::= ENUMERATED { abc, def, ghi }
+
+    Tagged ::= [APPLICATION 5] ENUMERATED { one, two, ..., three, four, five }
+
+    Big ::= ENUMERATED {
+        v0,
+        v1,
+        v2,
+        v3,
+        v4,
+        v5,
+        v6,
+        v7,
+        v8,
+        v9,
+        v10,
+        v11,
+        v12,
+        v13,
+        v14,
+        v15,
+        v16,
+        v17,
+        v18,
+        v19,
+        v20,
+        v21,
+        v22,
+        v23,
+        v24,
+        v25,
+        v26,
+        v27,
+        v28,
+        v29,
+        v30,
+        v31,
+        v32,
+        v33,
+        v34,
+        v35,
+        v36,
+        v37,
+        v38,
+        v39,
+        v40,
+        v41,
+        v42,
+        v43,
+        v44,
+        v45,
+        v46,
+        v47,
+        v48,
+        v49,
+        v50,
+        v51,
+        v52,
+        v53,
+        v54,
+        v55,
+        v56,
+        v57,
+        v58,
+        v59,
+        v60,
+        v61,
+        v62,
+        v63,
+        v64,
+        v65,
+        v66,
+        v67,
+        v68,
+        v69,
+        v70,
+        v71,
+        v72,
+        v73,
+        v74,
+        v75,
+        v76,
+        v77,
+        v78,
+        v79,
+        v80,
+        v81,
+        v82,
+        v83,
+        v84,
+        v85,
+        v86,
+        v87,
+        v88,
+        v89,
+        v90,
+        v91,
+        v92,
+        v93,
+        v94,
+        v95,
+        v96,
+        v97,
+        v98,
+        v99,
+        v100,
+        v101,
+        v102,
+        v103,
+        v104,
+        v105,
+        v106,
+        v107,
+        v108,
+        v109,
+        v110,
+        v111,
+        v112,
+        v113,
+        v114,
+        v115,
+        v116,
+        v117,
+        v118,
+        v119,
+        v120,
+        v121,
+        v122,
+        v123,
+        v124,
+        v125,
+        v126,
+        v127,
+        v128,
+        v129,
+        v130,
+        v131,
+        v132,
+        v133,
+        v134,
+        v135,
+        v136,
+        v137,
+        v138,
+        v139,
+        v140,
+        v141,
+        v142,
+        v143,
+        v144,
+        v145,
+        v146,
+        v147,
+        v148,
+        v149,
+        v150,
+        v151,
+        v152,
+        v153,
+        v154,
+        v155,
+        v156,
+        v157,
+        v158,
+        v159,
+        v160,
+        v161,
+        v162,
+        v163,
+        v164,
+        v165,
+        v166,
+        v167,
+        v168,
+        v169,
+        v170,
+        v171,
+        v172,
+        v173,
+        v174,
+        v175,
+        v176,
+        v177,
+        v178,
+        v179,
+        v180,
+        v181,
+        v182,
+        v183,
+        v184,
+        v185,
+        v186,
+        v187,
+        v188,
+        v189,
+        v190,
+        v191,
+        v192,
+        v193,
+        v194,
+        v195,
+        v196,
+        v197,
+        v198,
+        v199,
+        v200,
+        v201,
+        v202,
+        v203,
+        v204,
+        v205,
+        v206,
+        v207,
+        v208,
+        v209,
+        v210,
+        v211,
+        v212,
+        v213,
+        v214,
+        v215,
+        v216,
+        v217,
+        v218,
+        v219,
+        v220,
+        v221,
+        v222,
+        v223,
+        v224,
+        v225,
+        v226,
+        v227,
+        v228,
+        v229,
+        v230,
+        v231,
+        v232,
+        v233,
+        v234,
+        v235,
+        v236,
+        v237,
+        v238,
+        v239,
+        v240,
+        v241,
+        v242,
+        v243,
+        v244,
+        v245,
+        v246,
+        v247,
+        v248,
+        v249,
+        v250,
+        v251,
+        v252,
+        v253,
+        v254,
+        v255,
+        v256,
+        v257,
+        v258,
+        v259
+    }
+
+    END"
+);
+
+/// error class; must match `ErrKind.toString` of the Lean side.  `ErrorKind` lives in a private
+/// module of the crate and cannot be named here, so its derived `Debug` text is classified.
+fn der_err(e: &Error) -> &'static str {
+    let d = format!("{:?}", e.kind());
+    if d.starts_with("UnsupportedByteLen") {
+        "len-limit"
+    } else if d.starts_with("UnexpectedChoiceIndex") {
+        "choice-index"
+    } else if d.starts_with("UnexpectedTypeTag") || d.starts_with("UnexpectedTypeLength") {
+        "other"
+    } else if d.starts_with("IoError") && d.contains("UnexpectedEof") {
+        "eos"
+    } else {
+        "other"
+    }
+}
+
+fn class_str(t: Tag) -> String {
+    match t {
+        Tag::Universal(n) => format!("u:{}", n),
+        Tag::Application(n) => format!("a:{}", n),
+        Tag::ContextSpecific(n) => format!("c:{}", n),
+        Tag::Private(n) => format!("p:{}", n),
+    }
+}
+
+fn parse_tag(k: &str, n: &str) -> Option<Tag> {
+    let n: usize = n.parse().ok()?;
+    Some(match k {
+        "u" => Tag::Universal(n),
+        "a" => Tag::Application(n),
+        "c" => Tag::ContextSpecific(n),
+        "p" => Tag::Private(n),
+        _ => return None,
+    })
+}
+
+/// `written ++ post`, handed to the reader
+fn with_post(written: &[u8], post: &[u8]) -> Vec<u8> {
+    let mut v = written.to_vec();
+    v.extend_from_slice(post);
+    v
+}
+
+fn rt_answer<V: Display>(written: &[u8], r: Result<V, Error>, consumed: usize) -> String {
+    match r {
+        Ok(v) => format!("ok {} {} {}", hex(written), v, consumed),
+        Err(e) => format!("ok {} err:{}", hex(written), der_err(&e)),
+    }
+}
+
+fn rd_answer<V: Display>(r: Result<V, Error>, consumed: usize) -> String {
+    match r {
+        Ok(v) => format!("ok {} {}", v, consumed),
+        Err(e) => format!("err {}", der_err(&e)),
+    }
+}
+
+// ------------------------------------------------------------------ type-level tags and enumerations
+
+const fn mk_tag(k: u8, n: usize) -> Tag {
+    match k {
+        0 => Tag::Universal(n),
+        1 => Tag::Application(n),
+        2 => Tag::ContextSpecific(n),
+        _ => Tag::Private(n),
+    }
+}
+
+/// a constraint type whose `TAG` is class `K`, number `N`
+struct TC<const K: u8, const N: usize>;
+impl<const K: u8, const N: usize> common::Constraint for TC<K, N> {
+    const TAG: Tag = mk_tag(K, N);
+}
+impl<T: Number, const K: u8, const N: usize> numbers::Constraint<T> for TC<K, N> {}
+impl<const K: u8, const N: usize> boolean::Constraint for TC<K, N> {}
+
+/// an enumeration with `COUNT` variants, shaped like the generated code
+/// (`from_choice_index(i)` is `Some` exactly for `i < VARIANT_COUNT`)
+struct En<const COUNT: u64, const K: u8, const N: usize>(u64);
+impl<const COUNT: u64, const K: u8, const N: usize> common::Constraint for En<COUNT, K, N> {
+    const TAG: Tag = mk_tag(K, N);
+}
+impl<const COUNT: u64, const K: u8, const N: usize> enumerated::Constraint for En<COUNT, K, N> {
+    const NAME: &'static str = "En";
+    const VARIANT_COUNT: u64 = COUNT;
+    const STD_VARIANT_COUNT: u64 = COUNT;
+
+    fn to_choice_index(&self) -> u64 {
+        self.0
+    }
+
+    fn from_choice_index(index: u64) -> Option<Self> {
+        if index < COUNT {
+            Some(En(index))
+        } else {
+            None
+        }
+    }
+}
+
+/// `match (class, number)` over the tags available at type level; `$C` is bound to the constraint
+macro_rules! with_tag {
+    ($k:expr, $n:expr, $C:ident => $body:expr) => {
+        with_tag!(@classes $k, $n, $C => $body; [0 1 2 10 30 31 63 64 300])
+    };
+    (@classes $k:expr, $n:expr, $C:ident => $body:expr; [$($num:literal)*]) => {
+        match ($k, $n) {
+            $( ("u", $num) => { type $C = TC<0, $num>; Some($body) } )*
+            $( ("a", $num) => { type $C = TC<1, $num>; Some($body) } )*
+            $( ("c", $num) => { type $C = TC<2, $num>; Some($body) } )*
+            $( ("p", $num) => { type $C = TC<3, $num>; Some($body) } )*
+            _ => None,
+        }
+    };
+}
+
+macro_rules! with_num {
+    ($ty:expr, $T:ident => $body:expr) => {
+        match $ty {
+            "u8" => { type $T = u8; $body }
+            "u16" => { type $T = u16; $body }
+            "u32" => { type $T = u32; $body }
+            "u64" => { type $T = u64; $body }
+            "i8" => { type $T = i8; $body }
+            "i16" => { type $T = i16; $body }
+            "i32" => { type $T = i32; $body }
+            "i64" => { type $T = i64; $body }
+            _ => None,
+        }
+    };
+}
+
+/// enumerations available at type level: `<count>` with the tags `u:10 a:31 c:0 p:63 u:64`
+macro_rules! with_enum {
+    ($count:expr, $k:expr, $n:expr, $E:ident => $body:expr) => {
+        with_enum!(@go $count, $k, $n, $E => $body;
+            [1 2 3 127 128 129 255 256 257 65536 4294967297 9223372036854775809 18446744073709551615])
+    };
+    (@go $count:expr, $k:expr, $n:expr, $E:ident => $body:expr; [$($c:literal)*]) => {
+        match ($count, $k, $n) {
+            $( ($c, "u", 10) => { type $E = En<$c, 0, 10>; $body } )*
+            $( ($c, "a", 31) => { type $E = En<$c, 1, 31>; $body } )*
+            $( ($c, "c", 0) => { type $E = En<$c, 2, 0>; $body } )*
+            $( ($c, "p", 63) => { type $E = En<$c, 3, 63>; $body } )*
+            $( ($c, "u", 64) => { type $E = En<$c, 0, 64>; $body } )*
+            _ => None,
+        }
+    };
+}
+
+// ------------------------------------------------------------------------------- generic operations
+
+fn rt_number<T: Number + Display, C: numbers::Constraint<T>>(v: T, post: &[u8]) -> String {
+    let mut w = BasicWriter::from(Vec::new());
+    Integer::<T, C>::write_value(&mut w, &v).expect("write to Vec");
+    let written = w.into_inner();
+    let all = with_post(&written, post);
+    let mut src: &[u8] = &all[..];
+    let r = {
+        let mut rd = BasicReader::from(&mut src);
+        Integer::<T, C>::read_value(&mut rd)
+    };
+    rt_answer(&written, r, all.len() - src.len())
+}
+
+fn rd_number<T: Number + Display, C: numbers::Constraint<T>>(bytes: &[u8]) -> String {
+    let mut src: &[u8] = bytes;
+    let r = {
+        let mut rd = BasicReader::from(&mut src);
+        Integer::<T, C>::read_value(&mut rd)
+    };
+    rd_answer(r, bytes.len() - src.len())
+}
+
+fn rt_boolean<C: boolean::Constraint>(v: bool, post: &[u8]) -> String {
+    let mut w = BasicWriter::from(Vec::new());
+    Boolean::<C>::write_value(&mut w, &v).expect("write to Vec");
+    let written = w.into_inner();
+    let all = with_post(&written, post);
+    let mut src: &[u8] = &all[..];
+    let r = {
+        let mut rd = BasicReader::from(&mut src);
+        Boolean::<C>::read_value(&mut rd)
+    };
+    rt_answer(&written, r.map(b01), all.len() - src.len())
+}
+
+fn rd_boolean<C: boolean::Constraint>(bytes: &[u8]) -> String {
+    let mut src: &[u8] = bytes;
+    let r = {
+        let mut rd = BasicReader::from(&mut src);
+        Boolean::<C>::read_value(&mut rd)
+    };
+    rd_answer(r.map(b01), bytes.len() - src.len())
+}
+
+fn rt_enum<E: enumerated::Constraint>(index: u64, post: &[u8]) -> Option<String> {
+    let value = E::from_choice_index(index)?;
+    let mut w = BasicWriter::from(Vec::new());
+    Enumerated::<E>::write_value(&mut w, &value).expect("write to Vec");
+    let written = w.into_inner();
+    let all = with_post(&written, post);
+    let mut src: &[u8] = &all[..];
+    let r = {
+        let mut rd = BasicReader::from(&mut src);
+        Enumerated::<E>::read_value(&mut rd)
+    };
+    Some(rt_answer(
+        &written,
+        r.map(|e| e.to_choice_index()),
+        all.len() - src.len(),
+    ))
+}
+
+fn rd_enum<E: enumerated::Constraint>(bytes: &[u8]) -> Option<String> {
+    let mut src: &[u8] = bytes;
+    let r = {
+        let mut rd = BasicReader::from(&mut src);
+        Enumerated::<E>::read_value(&mut rd)
+    };
+    Some(rd_answer(
+        r.map(|e| e.to_choice_index()),
+        bytes.len() - src.len(),
+    ))
+}
+
+pub fn handle(args: &[&str]) -> Option<String> {
+    match args {
+        // ---- BasicWrite / BasicRead: length
+        ["len", n, post] => {
+            let n: u64 = n.parse().ok()?;
+            let post = unhex(post)?;
+            let mut written = Vec::new();
+            written.write_length(n).expect("write to Vec");
+            let all = with_post(&written, &post);
+            let mut src: &[u8] = &all[..];
+            let r = src.read_length();
+            Some(rt_answer(&written, r, all.len() - src.len()))
+        }
+        ["rlen", h] => {
+            let bytes = unhex(h)?;
+            let mut src: &[u8] = &bytes[..];
+            let r = src.read_length();
+            Some(rd_answer(r, bytes.len() - src.len()))
+        }
+        // ---- identifier
+        ["id", k, n, post] => {
+            let tag = parse_tag(k, n)?;
+            let post = unhex(post)?;
+            let mut written = Vec::new();
+            written.write_identifier(tag).expect("write to Vec");
+            let all = with_post(&written, &post);
+            let mut src: &[u8] = &all[..];
+            let r = src.read_identifier();
+            Some(rt_answer(&written, r.map(class_str), all.len() - src.len()))
+        }
+        ["rid", h] => {
+            let bytes = unhex(h)?;
+            let mut src: &[u8] = &bytes[..];
+            let r = src.read_identifier();
+            Some(rd_answer(r.map(class_str), bytes.len() - src.len()))
+        }
+        // ---- primitive boolean octet
+        ["bool", v, post] => {
+            let v = pbool(v)?;
+            let post = unhex(post)?;
+            let mut written = Vec::new();
+            BasicWrite::write_boolean(&mut written, v).expect("write to Vec");
+            let all = with_post(&written, &post);
+            let mut src: &[u8] = &all[..];
+            let r = BasicRead::read_boolean(&mut src);
+            Some(rt_answer(&written, r.map(b01), all.len() - src.len()))
+        }
+        ["rbool", h] => {
+            let bytes = unhex(h)?;
+            let mut src: &[u8] = &bytes[..];
+            let r = BasicRead::read_boolean(&mut src);
+            Some(rd_answer(r.map(b01), bytes.len() - src.len()))
+        }
+        // ---- integer content octets; read back with the number of bytes the writer emitted
+        ["i64", v, post] => {
+            let v: i64 = v.parse().ok()?;
+            let post = unhex(post)?;
+            let mut written = Vec::new();
+            written.write_integer_i64(v).expect("write to Vec");
+            let all = with_post(&written, &post);
+            let mut src: &[u8] = &all[..];
+            let r = src.read_integer_i64(written.len() as u32);
+            Some(rt_answer(&written, r, all.len() - src.len()))
+        }
+        ["u64", v, post] => {
+            let v: u64 = v.parse().ok()?;
+            let post = unhex(post)?;
+            let mut written = Vec::new();
+            written.write_integer_u64(v).expect("write to Vec");
+            let all = with_post(&written, &post);
+            let mut src: &[u8] = &all[..];
+            let r = src.read_integer_u64(written.len() as u32);
+            Some(rt_answer(&written, r, all.len() - src.len()))
+        }
+        ["ri64", byte_len, h] => {
+            let byte_len: u32 = byte_len.parse().ok()?;
+            let bytes = unhex(h)?;
+            let mut src: &[u8] = &bytes[..];
+            let r = src.read_integer_i64(byte_len);
+            Some(rd_answer(r, bytes.len() - src.len()))
+        }
+        ["ru64", byte_len, h] => {
+            let byte_len: u32 = byte_len.parse().ok()?;
+            let bytes = unhex(h)?;
+            let mut src: &[u8] = &bytes[..];
+            let r = src.read_integer_u64(byte_len);
+            Some(rd_answer(r, bytes.len() - src.len()))
+        }
+        // ---- BasicWriter / BasicReader: INTEGER of any of the eight Rust types under a tag
+        ["number", ty, k, n, v, post] => {
+            let n: usize = n.parse().ok()?;
+            let post = unhex(post)?;
+            with_num!(*ty, T => {
+                let v: T = v.parse().ok()?;
+                with_tag!(*k, n, C => rt_number::<T, C>(v, &post))
+            })
+        }
+        ["rnumber", ty, k, n, h] => {
+            let n: usize = n.parse().ok()?;
+            let bytes = unhex(h)?;
+            with_num!(*ty, T => with_tag!(*k, n, C => rd_number::<T, C>(&bytes)))
+        }
+        // ---- BOOLEAN
+        ["boolean", k, n, v, post] => {
+            let n: usize = n.parse().ok()?;
+            let v = pbool(v)?;
+            let post = unhex(post)?;
+            with_tag!(*k, n, C => rt_boolean::<C>(v, &post))
+        }
+        ["rboolean", k, n, h] => {
+            let n: usize = n.parse().ok()?;
+            let bytes = unhex(h)?;
+            with_tag!(*k, n, C => rd_boolean::<C>(&bytes))
+        }
+        // ---- ENUMERATED: hand-made enumerations of any size
+        ["enum", count, k, n, index, post] => {
+            let count: u64 = count.parse().ok()?;
+            let n: usize = n.parse().ok()?;
+            let index: u64 = index.parse().ok()?;
+            let post = unhex(post)?;
+            with_enum!(count, *k, n, E => rt_enum::<E>(index, &post))
+        }
+        ["renum", count, k, n, h] => {
+            let count: u64 = count.parse().ok()?;
+            let n: usize = n.parse().ok()?;
+            let bytes = unhex(h)?;
+            with_enum!(count, *k, n, E => rd_enum::<E>(&bytes))
+        }
+        // ---- ENUMERATED: enumerations generated by the crate's own `asn_to_rust!`
+        ["genum", which, index, post] => {
+            let index: u64 = index.parse().ok()?;
+            let post = unhex(post)?;
+            match *which {
+                "small" => rt_enum::<Small>(index, &post),
+                "tagged" => rt_enum::<Tagged>(index, &post),
+                "big" => rt_enum::<Big>(index, &post),
+                _ => None,
+            }
+        }
+        ["rgenum", which, h] => {
+            let bytes = unhex(h)?;
+            match *which {
+                "small" => rd_enum::<Small>(&bytes),
+                "tagged" => rd_enum::<Tagged>(&bytes),
+                "big" => rd_enum::<Big>(&bytes),
+                _ => None,
+            }
+        }
+        // the constants the generated enumerations were compiled with (checked against the driver's table)
+        ["ginfo", which] => {
+            fn info<E: enumerated::Constraint>() -> String {
+                format!("ok {} {}", class_str(E::TAG), E::VARIANT_COUNT)
+            }
+            Some(match *which {
+                "small" => info::<Small>(),
+                "tagged" => info::<Tagged>(),
+                "big" => info::<Big>(),
+                _ => return None,
+            })
+        }
+        _ => None,
+    }
 }
